@@ -67,6 +67,27 @@ func genCase(t *rapid.T) Case {
 				i++
 			}
 		}
+		if rapid.IntRange(0, 2).Draw(t, "casetwins") == 0 {
+			// two offending definitions whose names differ only by case (an order that compares names
+			// case-insensitively leaves their relative order to map iteration)
+			defs, _ := doc["definitions"].(map[string]any)
+			for _, n := range gen.SortedKeys(defs) {
+				d, _ := defs[n].(map[string]any)
+				twin := strings.ToLower(n)
+				if _, isAllOf := d["allOf"]; isAllOf || twin == n || defs[twin] != nil {
+					continue
+				}
+				for _, name := range []string{n, twin} {
+					c2 := gen.Clone(d).(map[string]any)
+					delete(c2, "additionalProperties")
+					req, _ := c2["required"].([]any)
+					c2["required"] = append(req, "ghostOf"+name)
+					defs[name] = c2
+				}
+				c.Edits = append(c.Edits, "requiredUndefined", "requiredUndefined(case twin)")
+				break
+			}
+		}
 		if rapid.Bool().Draw(t, "unusedthings") {
 			// warnings: an unused definition / parameter / response
 			defs, _ := doc["definitions"].(map[string]any)
